@@ -50,6 +50,9 @@ CHECKS['C06'] = dict(engine='M+S', tech=M_TECH + '; plus concrete position sweep
 CHECKS['C17'] = dict(engine='M+S', tech=M_TECH + '; plus concrete sweep of the documented ranges',
     text='bounded verification from the compiler IR: for every constructor the condition under which it reaches construction is proved equal to the documented domain for ALL integer arguments / element counts (bit-vector validity), path conditions exhaustive, arguments stored unchanged; the documented ranges (0..=130, counts 0..=17, blinding counts 0..=8, all u8) are additionally swept concretely',
     note='Engine M call table; the sweep is enumeration (stated); Kani cross-check of the container-shaped constructors listed in DESIGN as optional', ref='§5 C17')
+CHECKS['C16'] = dict(engine='S+M', tech=S_TECH + '; ' + M_TECH,
+    text='bounded verification: every decoding shape of C15 and a cross product of verification shapes (round counts incl. 20/40, tags, identity/undecodable points at every position, zero-challenge forks, mixed batches in every order with shared capacity, deviating members, statements of unusual shape through the constructor, three modes) run under catch_unwind with the model MSM asserting the real backend\'s length contracts, contents symbolic; from the MIR z3 proves for ALL usize: the round-count guard continues iff 2^rounds == full_length, compute_generator_padding, encode_usize, the promise guard, and that no rustc overflow assertion in these regions / AggregatedGensIter can fire',
+    note='A3, A5; shapes enumerated, contents symbolic; Engine M call table; allocation failure out of scope', ref='§5 C16')
 NA = {
 }
 def main():
